@@ -2,7 +2,7 @@
 # Model of `p2pserver/connect_controller.ConnectController` under concurrent connection attempts (C36)
 
 Every connection attempt is a *thread* with an explicit program counter; the shared state is the controller's
-address sets exactly as the Go code keeps them; `step v s i` lets thread `i` perform its next atomic action
+address sets exactly as the Go code keeps them; `step s i` lets thread `i` perform its next atomic action
 (one critical section of `ConnectController.mutex`, or the group of lock-protected reads of `beforeHandshakeCheck`);
 a *schedule* is a list of thread ids and `run` folds `step` over it.  The Go scheduler is replaced by the
 quantifier over schedules.
@@ -25,11 +25,10 @@ before that commit (no reservation: check-then-act) lives on only as the explici
 `Model/ConnCtlHist.lean:stepHist`, for the refutation theorems.
 
 A thread that has been `saved` keeps its `Conn` handle (`cid ≠ 0`) after it is `closed`; stepping it again is a
-second `Close()` of that stale handle:
-* `Variant.asShipped` is the code as it is: `Conn.Close` calls `removePeer` on every call, and `removePeer` removes
-  `conn.addr` from the address set unconditionally (only the `peers` entry is guarded by `connectId`) — a stale close
-  after a reconnect from the same address drops the LIVE connection's record.
-* `Variant.sound` is `fixes/C36-stale-close.patch`: `removePeer` runs once per `Conn` (`sync.Once`).
+further `Close()` of that stale handle.  `Conn.Close` runs `removePeer` once per `Conn` (`closeOnce`, commit 471ac830),
+so such a step changes nothing.  The controller between 280bc886 and 471ac830, whose every `Close()` ran `removePeer`
+and thereby dropped the record of a live connection that had reused the address, is the historical function
+`Model/ConnCtlHist.lean:stepStaleHist`.
 
 What a thread's remote side will do (handshake completes / fails / dial fails, which peer id and listen port it
 announces) is part of the thread's static data, so that a run is a function of the schedule alone.
@@ -38,9 +37,6 @@ announces) is part of the thread's static data, so that a run is a function of t
 association list.  Addresses are `(ip, port)` pairs of naturals (`ParseIPAddr` is the first projection).
 -/
 namespace OntVerif.Model.ConnCtl
-
-inductive Variant | asShipped | sound
-deriving DecidableEq, Repr
 
 inductive Dir | inb | outb
 deriving DecidableEq, Repr
@@ -183,7 +179,7 @@ def removePeer (s : State) (t : Thread) : State × Bool :=
     else (s1, false)
 
 /-- one atomic action of thread `i` -/
-def stepR (v : Variant) (s : State) (i : Nat) : State × Res :=
+def stepR (s : State) (i : Nat) : State × Res :=
   match s.threads[i]? with
   | none => (s, .idle)
   | some t =>
@@ -229,16 +225,13 @@ def stepR (v : Variant) (s : State) (i : Nat) : State × Res :=
       let r := removePeer s t
       (setPc r.1 i t .closed, .closed r.2)
     | .closed =>
-      -- a further Close() of the Conn handle of a connection that had been established
-      if t.cid = 0 then (s, .idle)
-      else match v with
-        | .asShipped => let r := removePeer s t; (r.1, .again r.2)
-        | .sound => (s, .again false)
+      -- a further Close() of the Conn handle of a connection that had been established: closeOnce, nothing happens
+      if t.cid = 0 then (s, .idle) else (s, .again false)
 
-def step (v : Variant) (s : State) (i : Nat) : State := (stepR v s i).1
+def step (s : State) (i : Nat) : State := (stepR s i).1
 
 /-- a schedule is a list of thread ids -/
-def run (v : Variant) (s : State) (sched : List Nat) : State := sched.foldl (step v) s
+def run (s : State) (sched : List Nat) : State := sched.foldl step s
 
 /-- number of threads of direction `d` whose connection is established (returned by `AcceptConnect`/`Connect`
 and not yet closed) -/
@@ -254,11 +247,6 @@ def staleStep (s : State) (i : Nat) : Bool :=
   | some t => t.pc = .closed ∧ t.cid ≠ 0
   | none => false
 
-/-- the schedule never closes a `Conn` twice -/
-def StaleFreeRun (v : Variant) : State → List Nat → Prop
-  | _, [] => True
-  | s, i :: r => staleStep s i = false ∧ StaleFreeRun v (step v s i) r
-
 /-- the three limits on the controller's own counters (`InboundsCount`, `getInboundCountWithIp`, `OutboundsCount`) -/
 def LimitsHold (s : State) : Prop :=
   (s.bound .inb).length ≤ s.cfg.maxIn ∧ (∀ ip, cnt ip (s.bound .inb) ≤ s.cfg.maxIp) ∧
@@ -266,16 +254,16 @@ def LimitsHold (s : State) : Prop :=
 
 /-- `macroStep`: what one op of the harness does — thread `i` runs until its next I/O point.  From `start` that is
 the check followed (if it passed) by the `checked` action; otherwise one step. -/
-def macroStep (v : Variant) (s : State) (i : Nat) : State × Res :=
+def macroStep (s : State) (i : Nat) : State × Res :=
   match s.threads[i]? with
   | none => (s, .idle)
   | some t =>
     match t.pc with
     | .start =>
-      let (s1, r1) := stepR v s i
+      let (s1, r1) := stepR s i
       match r1 with
-      | .pass => stepR v s1 i
+      | .pass => stepR s1 i
       | _ => (s1, r1)
-    | _ => stepR v s i
+    | _ => stepR s i
 
 end OntVerif.Model.ConnCtl
